@@ -10,11 +10,14 @@ import (
 
 	"github.com/carapace-sh/carapace/internal/cache"
 	"github.com/carapace-sh/carapace/internal/common"
+	"github.com/carapace-sh/carapace/internal/pflagfork"
 	"github.com/carapace-sh/carapace/internal/shell"
 	"github.com/carapace-sh/carapace/internal/shell/bash"
 	"github.com/carapace-sh/carapace/internal/shell/zsh"
 	"github.com/carapace-sh/carapace/pkg/cache/key"
 	"github.com/carapace-sh/carapace/pkg/match"
+	"github.com/spf13/cobra"
+	"github.com/spf13/pflag"
 )
 
 type (
@@ -75,4 +78,33 @@ func VerifExportJSON(ia InvokedAction) ([]byte, error) {
 // VerifCacheFile returns the cache file for a call site and keys (internal/cache.File).
 func VerifCacheFile(callerFile string, callerLine int, keys ...key.Key) (string, error) {
 	return cache.File(callerFile, callerLine, keys...)
+}
+
+// VerifTraverse exposes traverse: the Action and Context chosen for the word under the cursor.
+func VerifTraverse(cmd *cobra.Command, args []string) (Action, Context) {
+	return traverse(cmd, args)
+}
+
+// VerifLookupArg exposes pflagfork.FlagSet.LookupArg and Flag.Consumes.
+func VerifLookupArg(fs *pflag.FlagSet, arg string) (found bool, name, prefix string, args []string, consumesEmpty bool) {
+	f := pflagfork.FlagSet{FlagSet: fs}.LookupArg(arg)
+	if f == nil {
+		return false, "", "", nil, false
+	}
+	return true, f.Name, f.Prefix, f.Args, f.Consumes("")
+}
+
+// VerifIsShorthandSeries exposes pflagfork.FlagSet.IsShorthandSeries.
+func VerifIsShorthandSeries(fs *pflag.FlagSet, arg string) bool {
+	return pflagfork.FlagSet{FlagSet: fs}.IsShorthandSeries(arg)
+}
+
+// VerifCobraBridge exposes the two functions of the carapace -> cobra bridge.
+func VerifCobraBridge(ia InvokedAction) ([]string, cobra.ShellCompDirective) {
+	return cobraValuesFor(ia), cobraDirectiveFor(ia)
+}
+
+// VerifDirectiveAction exposes compDirective.ToA (cobra -> carapace).
+func VerifDirectiveAction(d cobra.ShellCompDirective, values ...string) Action {
+	return compDirective(d).ToA(values...)
 }
